@@ -1373,6 +1373,7 @@ func (s *State) evalArrayInfixExpression(operator token.Type, left, right object
 		}
 		return object.NewArray(result)
 	case token.PLUS: // concat / append
+		leftVal = object.AppendTarget(leftVal)
 		if right.Type() != object.ARRAY {
 			return object.NewArray(append(leftVal, object.Value(right)))
 		}
